@@ -207,7 +207,7 @@ func checkC02(c *km.Ctx) {
 		if fn == nil {
 			continue
 		}
-		st := storesByField(fn, "crypto/x509.Certificate")
+		st := templateStores(c, fn, "crypto/x509.Certificate", "crypto/x509.Certificate")
 		chk := func(field, req string, pred func(v ssa.Value) bool) {
 			ss := st[field]
 			if len(ss) == 0 {
@@ -215,7 +215,7 @@ func checkC02(c *km.Ctx) {
 				return
 			}
 			for _, x := range ss {
-				r.Add("R-C02-2", km.FuncName(fn), "x509 template "+field, posOf(c, x), req, clipS(km.ValStr(x.Val), 120), pred(x.Val))
+				r.Add("R-C02-2", km.FuncName(fn), "x509 template "+field, posOf(c, x.At), req, clipS(km.ValStr(x.Val), 120), pred(x.Val))
 			}
 		}
 		chk("IsCA", "false", func(v ssa.Value) bool { return km.ValStr(v) == "false" })
@@ -225,7 +225,7 @@ func checkC02(c *km.Ctx) {
 		if f.nameParam >= 0 {
 			// Subject.CommonName: pkix.Name composite whose CommonName is the name parameter
 			cnOK := false
-			for _, x := range storesByField(fn, "crypto/x509/pkix.Name")["CommonName"] {
+			for _, x := range templateStores(c, fn, "crypto/x509/pkix.Name", "crypto/x509.Certificate")["CommonName"] {
 				if km.Unwrap(x.Val) == ssa.Value(fn.Params[f.nameParam]) {
 					cnOK = true
 				} else {
